@@ -7,6 +7,8 @@ use std::fs;
 use std::path::PathBuf;
 
 fn main() {
+    // Declare the verification-only cfg so it never trips `unexpected_cfgs`.
+    println!("cargo:rustc-check-cfg=cfg(echo_verif)");
     // Generate canonical rule ids (domain-separated) for zero-CPU runtime.
     let out_dir = PathBuf::from(env::var("OUT_DIR").unwrap());
     let dest = out_dir.join("rule_ids.rs");
